@@ -67,7 +67,14 @@ inductive PC
 deriving DecidableEq, Repr
 
 structure St where
+  /-- the stream was created by the application through `ClientConn.NewStream` / `grpc.NewClientStream`
+      (ANY StreamDesc, also one with neither ClientStreams nor ServerStreams) and is driven by the
+      application's SendMsg / RecvMsg calls; `false` = `cc.Invoke` (desc == unaryStreamDesc), whose
+      calls are made by grpc itself. newClientStream starts the context watcher iff this is true. -/
   streaming : Bool
+  /-- `desc.ServerStreams` (false for Invoke): RecvMsg of a non-server-streaming RPC reads on after
+      the message, expecting io.EOF. -/
+  serverStreams : Bool := false
   pc : PC
   /-- `ctx.Err()`; `none` while the context is live -/
   ctx : Option CtxErr := none
@@ -89,6 +96,8 @@ structure St where
   buf : List Item := []
   /-- `s.done` closed (closeStream ran); once set, frames for the stream are dropped -/
   sdone : Bool := false
+  /-- the client's closeStream put RST_STREAM(CANCEL) on the wire (`rst = err != nil` in `ClientStream.Close`) -/
+  rstSent : Bool := false
   /-- the watcher goroutine of newClientStream is armed (non-unary RPCs, after stream creation) -/
   watcher : Bool := false
   /-- `cs.finished` with this status (set by cs.finish) -/
@@ -100,13 +109,14 @@ structure St where
 deriving Repr
 
 /-- A new RPC entering `newClientStream`; `reqSz` = size of a unary RPC's request message. -/
-def St.init (streaming : Bool) (ready : Bool) (squota : Nat) (reqSz : Nat := 1) : St :=
-  { streaming := streaming, pc := .parked .pick, ready := ready, squota := squota, sendSz := reqSz }
+def St.init (streaming : Bool) (ready : Bool) (squota : Nat) (reqSz : Nat := 1) (serverStreams : Bool := streaming) : St :=
+  { streaming := streaming, serverStreams := streaming && serverStreams, pc := .parked .pick, ready := ready,
+    squota := squota, sendSz := reqSz }
 
 /-- `closeStream(s, err, …)` on the client: first caller wins; writes the error to the END of the
     recv buffer, closes `s.done` and `headerChan`. -/
 def closeStream (s : St) (code : Nat) : St :=
-  if s.sdone then s else { s with sdone := true, hdr := true, buf := s.buf ++ [.err code] }
+  if s.sdone then s else { s with sdone := true, rstSent := true, hdr := true, buf := s.buf ++ [.err code] }
 
 /-- `cs.finish(err)`: first caller wins; closes the transport stream (RST_STREAM CANCEL when err ≠ nil). -/
 def finish (s : St) (code : Nat) : St :=
@@ -131,9 +141,9 @@ def takeHead (s : St) : Option St :=
   match s.buf with
   | [] => none
   | .msg :: rest =>
-    if s.streaming then some { s with buf := rest, delivered := s.delivered + 1, pc := .app }
+    if s.serverStreams then some { s with buf := rest, delivered := s.delivered + 1, pc := .app }
     else if s.gotMsg then
-      -- unary: a second message where io.EOF was expected
+      -- non-server-streaming: a second message where io.EOF was expected
       some { s with pc := .returned codeInternal }
     else
       -- unary RecvMsg: after the message it reads once more, expecting io.EOF
@@ -141,7 +151,7 @@ def takeHead (s : St) : Option St :=
   | .err code :: _ => some { s with pc := .returned code }
   | .eof code :: _ =>
     -- io.EOF: the stream's status; a non-server-streaming RPC that got OK without a message is a cardinality violation
-    if !s.streaming && !s.gotMsg && code == 0 then some { s with pc := .returned codeInternal }
+    if !s.serverStreams && !s.gotMsg && code == 0 then some { s with pc := .returned codeInternal }
     else some { s with pc := .returned code }
 
 /-- One attempt of the RPC goroutine to get past the select it is parked at (or to take the next
